@@ -287,6 +287,103 @@ func extractTables(rel string) *pkgTables {
 					}
 				}
 			}
+			// the table idiom of the same decomposition:
+			//   rows := []struct{ m T; name string }{ {C1, "N1"}, {C2, "N2"}, ... }
+			//   for _, r := range rows { if x&r.m == r.m { list = append(list, r.name) } }      (or: != … continue; append)
+			// yields the same chain rows, in the order of the literal
+			localRows := map[string][][2]ast.Expr{}
+			for _, st := range fd.Body.List {
+				as, ok := st.(*ast.AssignStmt)
+				if !ok || len(as.Lhs) != 1 || len(as.Rhs) != 1 {
+					continue
+				}
+				cl, ok := as.Rhs[0].(*ast.CompositeLit)
+				if !ok {
+					continue
+				}
+				at, ok := cl.Type.(*ast.ArrayType)
+				if !ok {
+					continue
+				}
+				if _, ok := at.Elt.(*ast.StructType); !ok {
+					continue
+				}
+				var rows [][2]ast.Expr
+				good := len(cl.Elts) > 0
+				for _, el := range cl.Elts {
+					rl, ok := el.(*ast.CompositeLit)
+					if !ok || len(rl.Elts) != 2 {
+						good = false
+						break
+					}
+					a, b := rl.Elts[0], rl.Elts[1]
+					if kv, ok := a.(*ast.KeyValueExpr); ok {
+						a = kv.Value
+					}
+					if kv, ok := b.(*ast.KeyValueExpr); ok {
+						b = kv.Value
+					}
+					rows = append(rows, [2]ast.Expr{a, b})
+				}
+				if good {
+					localRows[identName(as.Lhs[0])] = rows
+				}
+			}
+			for _, st := range fd.Body.List {
+				rs, ok := st.(*ast.RangeStmt)
+				if !ok || rs.Value == nil {
+					continue
+				}
+				rows, ok := localRows[identName(rs.X)]
+				if !ok || len(rs.Body.List) == 0 {
+					continue
+				}
+				is, ok := rs.Body.List[0].(*ast.IfStmt)
+				if !ok || is.Init != nil || is.Else != nil {
+					continue
+				}
+				be, ok := unparen(is.Cond).(*ast.BinaryExpr)
+				if !ok || (be.Op != token.EQL && be.Op != token.NEQ) {
+					continue
+				}
+				and, ok := unparen(be.X).(*ast.BinaryExpr)
+				if !ok || and.Op != token.AND {
+					continue
+				}
+				rv := identName(rs.Value)
+				sel := func(e ast.Expr) bool {
+					se, ok := unparen(e).(*ast.SelectorExpr)
+					return ok && identName(se.X) == rv
+				}
+				if !sel(and.Y) || !sel(be.Y) || nodeStr(lp.fset, and.Y) != nodeStr(lp.fset, be.Y) {
+					continue
+				}
+				// == with an append in the body, or != with continue followed by the append
+				shapeOK := false
+				if be.Op == token.EQL && len(rs.Body.List) == 1 && len(is.Body.List) == 1 {
+					_, shapeOK = is.Body.List[0].(*ast.AssignStmt)
+				}
+				if be.Op == token.NEQ && len(rs.Body.List) == 2 && len(is.Body.List) == 1 {
+					if br, ok := is.Body.List[0].(*ast.BranchStmt); ok && br.Tok == token.CONTINUE {
+						_, shapeOK = rs.Body.List[1].(*ast.AssignStmt)
+					}
+				}
+				if !shapeOK {
+					continue
+				}
+				for _, row := range rows {
+					mv, ok1 := lp.evalConst(row[0])
+					nv, ok2 := lp.evalConst(row[1])
+					if !ok1 || !ok2 || nv.Kind() != constant.String {
+						continue
+					}
+					ms, ok := intString(mv)
+					if !ok {
+						continue
+					}
+					pt.Chains[key] = append(pt.Chains[key], chainRow{identName(row[0]), ms, identName(row[0]), ms, true, constant.StringVal(nv)})
+				}
+			}
 			for _, st := range fd.Body.List {
 				switch s := st.(type) {
 				case *ast.IfStmt:
